@@ -14,7 +14,7 @@ RULES = {
     'C17': 'bootstrap: stage 2 (current generator on grammar.ebnf, rustfmt) vs the shipped generated.rs below the header; shipped front end vs model front end on the C12 corpus (valid and invalid texts: same structure or same error); distinct per text',
     'C03': 'gendiff: generated grammars (valid family, several derive sets): declared public types extracted from the emitted code vs Compile.decls; rustc acceptance of every parser of the pegdiff suite under forbid(unsafe_code); distinct per (grammar, number of declarations)',
     'C15': 'gendiff: valid grammars, 12 families built to violate each documented restriction (x derive sets), the inputs of the fixed defects F4/F5, and a raw text stream (mutated valid texts, random tokens, nesting up to depth 200) through the real generator in a separate process; outcome class ok/error/panic/abort vs Compile.errors; distinct per (family, outcome)',
-    'C16': 'routes: library call in fresh processes, CLI, build script; distinct per (grammar, route)',
+    'C16': 'routes: library call in three fresh processes, CLI, build script (bytes after header/prefix); macro route: one crate with `peginate!(text)` next to the library-route code of the same text per grammar – Debug of every parse result equal, and (nightly `-Zunpretty=expanded`) the expanded module text equal token for token; distinct per (grammar, route)',
     'C01': 'pegdiff suite (all families); a case is non-trivial/distinct per (grammar, outcome, consumed bytes)',
     'C02': 'pegdiff suite (all families), accepted inputs; distinct per (grammar, tree shape with literals erased)',
     'C04': 'pegdiff suite; distinct per (grammar containing non-ASCII text, outcome); every offset seen by the tracer, in positions and in errors is checked with is_char_boundary; cfg(peginator_verif) assertion in advance',
